@@ -33,7 +33,7 @@ EXPLANATION = (
     "utils.convert_targets_column (or is a dataset's own boolean targets). "
     "(c) direction honoured downstream (FLAG): each element of descs given "
     "Also: the best-feature record of a model is assigned only in Model.__init__ / Model.fit (who-may-write, setattr loops included); the learned scores' count is a total over all collections; the label definition of C01d is a clause here too. "
-    "to assign_confidence must influence the ranking. NOT decided: whether "
+    "to assign_confidence must influence the ranking. Also: no component of the best-feature record is reset inside the loop over the two directions. NOT decided: whether "
     "training fails for a given dataset.")
 TECHNIQUE = ("def-use term matching + source/sanitiser/sink taint over call "
              "sites + inter-procedural flag routing + sibling agreement")
@@ -791,6 +791,29 @@ def _best_feature_loop(ctx, f):
         if key == "lab" and not ds:
             slots[key] = None       # computed after the loop, see below
             continue
+        resets = []
+        if ds and len(ds) > 1:
+            # a constant filed unconditionally at the top of every round
+            # of the direction loop is a *reset*: what the earlier
+            # directions found is forgotten
+            resets = [(v, n) for v, n in ds if v[0] == "const"
+                      and not conds_of(n) and cfg.enclosing(
+                          cfg.stmt_of(n), (ast.For, ast.While)) is lp]
+            if len(resets) == len(ds):
+                resets = []
+        if key == "cnt" or resets:
+            if True:
+                ctx.check(not resets, "C07a-best-spans-both-directions", f,
+                          "the best-so-far record is initialised once, "
+                          "before the loop over the directions",
+                          f"the returned {key} ({show(t, 40)}) is reset to "
+                          f"{show(resets[0][0], 20) if resets else ''} at "
+                          "the start of every "
+                          "direction: the second direction wins with any "
+                          "candidate that accepts at least one target, "
+                          "however much better the first direction was",
+                          node=resets[0][1] if resets else lp)
+                ds = [x for x in ds if x not in resets]
         ctx.require(ds is not None and len(ds) == 1,
                     f"{f.qual}: the returned {key} ({show(t, 60)}) has "
                     f"{len(ds or [])} definitions in the direction loop; "
